@@ -11,6 +11,7 @@
 import TwModel
 import TwSpec
 import TwProofs.Lemmas.Loops
+import TwProofs.Lemmas.EachSimple
 
 namespace Tw.C03
 open Tw
@@ -57,6 +58,31 @@ theorem each_renders_passes (f : Nat) (c : Ctx) (env : Env) (t : Token) (var : B
   simp only [hemp, Bool.false_eq_true, if_false]
   rw [show f + (xs.length + 1) = f + xs.length + 1 from rfl, eachLoop_passes hp, Res.bind_ok]
   simp
+
+/-- **the passes computed**: for a body of text and plain variable prints — the loop variable,
+    `loop`, variables visible outside — and an array of `n ≥ 1` elements of one type, `@each`
+    renders, element after element in order, the body's text with the holes filled from the
+    environment of that pass (`passEnv`: the element bound to the variable, `loop` = the metadata
+    of position `i` of `n`, everything else as outside), and hands back the environment it was
+    given.  No hypothesis about passes: they are constructed. -/
+theorem each_of_text_and_variables (f : Nat) (c : Ctx) (env : Env) (t : Token) (var : Bytes) (arrE : Expr) (body : List Stmt)
+    (alt : Option (List Stmt)) (xs : List Val) (ty : VType)
+    (harr : evalExpr f c env.push arrE = .ok (.arr xs)) (hne : xs ≠ [])
+    (hv : (var == b "loop") = false) (hfresh : ∀ old, env.get var = some old → old.type = ty)
+    (hty : ∀ x ∈ xs, x.type = ty) (hsb : simpleBlock body = true) (hvis : holesVisible env var (piecesOf body)) :
+    evalStmt (max f (body.length + 3) + xs.length + 1 + 1) c env (.eachS t var arrE body alt) =
+      .ok ({ text := passTexts env var (piecesOf body) xs.length xs 0 }, env) := by
+  have hp := eachPasses_simple c env t var body ty xs.length hv hfresh hsb hvis xs 0 [] hty (Or.inl rfl)
+  have hp' : EachPasses (max f (body.length + 3)) c t var body xs.length env.push xs 0
+      (passTexts env var (piecesOf body) xs.length xs 0) := by
+    obtain ⟨k, hk⟩ : ∃ k, max f (body.length + 3) = (body.length + 3) + k := ⟨max f (body.length + 3) - (body.length + 3), by omega⟩
+    rw [hk]
+    exact eachPasses_lift hp k
+  obtain ⟨k2, hk2⟩ : ∃ k, max f (body.length + 3) = f + k := ⟨max f (body.length + 3) - f, by omega⟩
+  exact each_renders_passes (max f (body.length + 3)) c env t var arrE body alt xs _ (by rw [hk2]; exact evalExpr_lift harr k2) hne hp'
+
+example : (match evaluateStringPure [] (b "@each(v in [\"a\",\"b\"])<{{ v }}|{{ w }}>@end") [(b "w", .int 7)] with
+    | .ok out => out == b "<a|7><b|7>" | _ => false) = true := by decide +kernel
 
 /-- the `@else` body is rendered exactly when the array is empty; its break / continue flags go
     to the construct around the loop -/
